@@ -26,6 +26,8 @@ def lst_term(ip, st, v, sort=None):
     view = ip.as_view(st, v)
     if sort is None:
         from .builtins_ import sv_lst_sort
+        if view.items is not None and not view.items:
+            raise U("element sort of an empty sequence is not known here")
         sort = sv_lst_sort(ip, view.get(I(0)))
     return materialise(ip, st, view, sort)
 
@@ -138,8 +140,12 @@ def sp_same(ip, st, pos, kws):
     a, b = pos
     if isinstance(a, Opaque) and isinstance(b, Opaque):
         return Bool(EQ(a.t, b.t))
-    ta = lst_term(ip, st, a)
-    tb = lst_term(ip, st, b, ta.sort)
+    try:
+        ta = lst_term(ip, st, a)
+        tb = lst_term(ip, st, b, ta.sort)
+    except Exception:
+        tb = lst_term(ip, st, b)
+        ta = lst_term(ip, st, a, tb.sort)
     return Bool(EQ(ta, tb))
 
 
